@@ -4,7 +4,10 @@ import sys
 from fractions import Fraction
 
 
-def run(cls_name, prop, value):
+SAME = '<the current value>'
+
+
+def run(cls_name, prop, value, twice=False):
     import desper
     import desper.math as dm
     log = []
@@ -18,6 +21,15 @@ def run(cls_name, prop, value):
     l1, l2 = L(), L()
     t.add_handler(l1)
     t.add_handler(l2)
+    if value == SAME:
+        # assigning the value the property already holds (default of a fresh transform,
+        # `t.position = t.position`, a zero delta) still notifies once
+        value = getattr(t, prop)
+        if isinstance(value, tuple):
+            value = tuple(value)
+    if twice:
+        setattr(t, prop, value)
+        del log[:]
     others = {p: getattr(t, p) for p in ('position', 'rotation', 'scale') if p != prop}
     setattr(t, prop, value)
     read = getattr(t, prop)
@@ -40,10 +52,10 @@ def run(cls_name, prop, value):
 def values_for(cls_name, prop):
     import desper.math as dm
     if cls_name == 'Transform2D' and prop == 'rotation':
-        return [0.0, 10.0, 359.5, 360.0, 370.0, -10.0, 725.25, -360.0, 1e6 + 0.5]
+        return [0.0, 10.0, 359.5, 360.0, 370.0, -10.0, 725.25, -360.0, 1e6 + 0.5, SAME]
     V = dm.Vec2 if cls_name == 'Transform2D' else dm.Vec3
     n = 2 if cls_name == 'Transform2D' else 3
-    return [V(*([1.5] * n)), V(*range(n)), V(*([-2.0] * n))]
+    return [V(*([1.5] * n)), V(*range(n)), V(*([-2.0] * n)), SAME, tuple([1.0] * n), tuple([0.0] * n)]
 
 
 def main():
@@ -66,12 +78,13 @@ def main():
             for prop in ('position', 'rotation', 'scale'):
                 for v in values_for(cls_name, prop):
                     cands.append((cls_name, prop, v))
-    for cls_name, prop, v in cands:
-        probs = run(cls_name, prop, v)
+    cands = [c + (False,) for c in cands] + [c + (True,) for c in cands if req['mode'] == 'search' or not ob.get('witness')]
+    for cls_name, prop, v, twice in cands:
+        probs = run(cls_name, prop, v, twice)
         if probs:
             print(json.dumps({'status': 'reproduced',
                               'history': {'ops': [['new', cls_name], ['add_handler', 'l1'], ['add_handler', 'l2'],
-                                                  ['set', prop, repr(v)]]},
+                                                  ['set', prop, repr(v)]] * (2 if twice else 1)},
                               'observed': probs[0], 'signature': 'C20:%s.%s' % (cls_name, prop)}))
             return
     print(json.dumps({'status': 'not-found', 'tried': len(cands)}))
